@@ -120,9 +120,39 @@ type Handle struct {
 	hidden  map[string]bool
 	hideAll bool
 	visible map[string]bool // exceptions to hideAll
+	scoped  map[string]*scopedPlan
 }
 
 var _ simpleblob.Interface = (*Handle)(nil)
+
+// SetPlanFor queues faults for the calls of that kind whose object name contains match (consumed before
+// the general plan of the kind; other names are not affected).
+func (h *Handle) SetPlanFor(kind, match string, faults []string) {
+	h.mu.Lock()
+	defer h.mu.Unlock()
+	if h.scoped == nil {
+		h.scoped = map[string]*scopedPlan{}
+	}
+	h.scoped[kind] = &scopedPlan{match: match, faults: append([]string(nil), faults...)}
+}
+
+type scopedPlan struct {
+	match  string
+	faults []string
+}
+
+// nextFor returns the next fault for a call of that kind on that name.
+func (h *Handle) nextFor(kind, name string) string {
+	h.mu.Lock()
+	if sp := h.scoped[kind]; sp != nil && len(sp.faults) > 0 && strings.Contains(name, sp.match) {
+		f := sp.faults[0]
+		sp.faults = sp.faults[1:]
+		h.mu.Unlock()
+		return f
+	}
+	h.mu.Unlock()
+	return h.next(kind)
+}
 
 func (h *Handle) SetPlan(kind string, faults []string) {
 	h.mu.Lock()
@@ -134,6 +164,7 @@ func (h *Handle) ClearPlans() {
 	h.mu.Lock()
 	defer h.mu.Unlock()
 	h.plan = map[string][]string{}
+	h.scoped = nil
 }
 
 func (h *Handle) Hide(name string)   { h.mu.Lock(); h.hidden[name] = true; h.mu.Unlock() }
@@ -235,7 +266,7 @@ func (h *Handle) Load(ctx context.Context, name string) ([]byte, error) {
 	if err := h.ctxErr(ctx); err != nil {
 		return nil, err
 	}
-	f := h.next("load")
+	f := h.nextFor("load", name)
 	h.b.mu.Lock()
 	defer h.b.mu.Unlock()
 	switch f {
